@@ -32,12 +32,13 @@ func (in *Interp) QEsc(s *smt.Term) *smt.Term {
 	if s.Const {
 		return smt.StrLit(url.QueryEscape(s.Str))
 	}
-	in.X.noteAssumption("net/url.QueryEscape on symbolic strings: defined by replacement of % & = + and space (exact for strings over [A-Za-z0-9._~-] and those five characters; harness assumption restricts inputs to that alphabet)")
-	t := s
-	for _, r := range [][2]string{{"%", "%25"}, {"&", "%26"}, {"=", "%3D"}, {"+", "%2B"}, {" ", "+"}} {
-		t = smt.App(smt.KStr, 0, "str.replace_all", t, smt.StrLit(r[0]), smt.StrLit(r[1]))
-	}
-	return t
+	in.X.noteAssumption("net/url.QueryEscape on symbolic strings: uninterpreted function with the lemmas: output contains '+' iff the input contains a space; output contains none of space & = # ?; output empty iff input empty (all true of the real function)")
+	q := smt.UF("qesc", []string{"String"}, &smt.Term{K: smt.KStr}, s)
+	in.assumeOnce(smt.Eq(smt.StrContains(q, smt.StrLit("+")), smt.StrContains(s, smt.StrLit(" "))))
+	in.assumeOnce(smt.And(smt.Not(smt.StrContains(q, smt.StrLit(" "))), smt.Not(smt.StrContains(q, smt.StrLit("&"))), smt.Not(smt.StrContains(q, smt.StrLit("="))),
+		smt.Not(smt.StrContains(q, smt.StrLit("#"))), smt.Not(smt.StrContains(q, smt.StrLit("?")))))
+	in.assumeOnce(smt.Eq(smt.Eq(q, smt.StrLit("")), smt.Eq(s, smt.StrLit(""))))
+	return q
 }
 
 var queryAlphabetRe = `(re.* (re.union (re.range "a" "z") (re.range "A" "Z") (re.range "0" "9") (str.to_re ".") (str.to_re "_") (str.to_re "~") (str.to_re "-") (str.to_re " ") (str.to_re "&") (str.to_re "=") (str.to_re "+") (str.to_re "%")))`
@@ -279,6 +280,28 @@ func init() {
 		name := symName(fmt.Sprintf("signature.%d", k-1))
 		return in.b64Encode("std", &smt.Term{K: smt.KStr, S: name, Syms: []string{name}})
 	}
+	// vB64AlphabetAxiom(): from now on base64 encoder outputs are constrained to the base64 alphabet
+	intrinsics["vB64AlphabetAxiom"] = func(in *Interp, fn *ssa.Function, a []Value) Value {
+		in.Ghost["b64.alphabet"] = true
+		return nil
+	}
+	// vSignedHash(signatureB64): the crypto.Hash the signature was computed with (0 if unknown)
+	intrinsics["vSignedHash"] = func(in *Interp, fn *ssa.Function, a []Value) Value {
+		sb := termArg(in, a[0])
+		for k, v := range in.Ghost {
+			if !strings.HasPrefix(k, "signed:") {
+				continue
+			}
+			sigT := &smt.Term{K: smt.KStr, S: k[7:], Syms: []string{k[7:]}}
+			if B64E("std", sigT).S == sb.S {
+				var h uint64
+				fmt.Sscanf(v.(*signedRec).Hash, "hash%d", &h)
+				return smt.BV(h, 64)
+			}
+		}
+		return smt.BV(0, 64)
+	}
+	intrinsics["vSetSignedContent"] = func(in *Interp, fn *ssa.Function, a []Value) Value { return nil }
 	intrinsics["vQEsc"] = func(in *Interp, fn *ssa.Function, a []Value) Value { return in.QEsc(termArg(in, a[0])) }
 	// vQueryString(name): a symbolic string over the query alphabet (relay states)
 	intrinsics["vQueryString"] = func(in *Interp, fn *ssa.Function, a []Value) Value {
